@@ -73,6 +73,9 @@ func symString(t *verifrt.T, name string, max int) string {
 // plainString: symbolic length, bytes symbolic within 'a'..'z' (escaping is
 // C17's subject; the structural harnesses keep one class per byte).
 func plainString(t *verifrt.T, name string, max int) string {
+	if m := t.ParamOr("SLEN", 0); m > max {
+		max = m // thorough tier: longer strings
+	}
 	n := t.Choice(name+"-len", max+1)
 	b := t.Bytes(name, n)
 	for i := range b {
